@@ -82,7 +82,7 @@ func ensureIntrinsics(pkg *types.Package) {
 	}
 	v := func(name string, t types.Type) *types.Var { return types.NewVar(token.NoPos, pkg, name, t) }
 	// old[T](x T) T, head[T](x T) T
-	for _, n := range []string{"old", "head", "pre"} {
+	for _, n := range []string{"old", "head", "pre", "outer"} {
 		tp := mkTP("T")
 		sig := types.NewSignatureType(nil, nil, []*types.TypeParam{tp}, types.NewTuple(v("x", tp)), types.NewTuple(v("", tp)), false)
 		sc.Insert(types.NewFunc(token.NoPos, pkg, n, sig))
@@ -731,6 +731,28 @@ func (e *SpecEnv) intrinsic(name string, n *ast.CallExpr, targs []types.Type) Va
 		sub.st = pre
 		sub.inOld = false
 		return sub.eval(n.Args[1])
+	case "outer":
+		// the state at the head of the enclosing loop's current iteration
+		if e.frame == nil || e.loop == nil {
+			e.fail("outer() is only available in clauses of a nested loop")
+		}
+		var parent *ssa.BasicBlock
+		for h, body := range e.frame.li.body {
+			if h != e.loop && body[e.loop] && (parent == nil || len(body) < len(e.frame.li.body[parent])) {
+				parent = h
+			}
+		}
+		if parent == nil {
+			e.fail("outer(): the loop is not nested in another loop")
+		}
+		snap := e.frame.headSnap[e.frame.li.ord[parent]]
+		if snap == nil {
+			e.fail("outer(): no snapshot of the enclosing loop head")
+		}
+		sub := *e
+		sub.st = snap
+		sub.inOld = false
+		return sub.eval(n.Args[0])
 	case "head":
 		if e.head == nil {
 			e.fail("head() not available here")
